@@ -119,6 +119,7 @@ type Exec struct {
 	recording *[]loc // when set: heap writes are recorded (closure write-set discovery)
 	mute      bool   // when set: no obligations are emitted
 	edgeReach map[[2]*ssa.BasicBlock]*Term
+	ghostPre  *State // state just before the call whose ghost updates are being evaluated (pre(...) there)
 }
 
 func NewExec(w *World, fn *ssa.Function, fc *FuncContract) *Exec {
